@@ -280,6 +280,8 @@ class Ctx(InterpMixin, ModelsMixin):
     def __init__(self, engine, script):
         self.eng = engine
         self.script = script
+        from . import values as _values
+        _values.CURRENT_CTX[0] = self
         self.taken = []
         self.forks = []
         self.solver = z3.Solver()
